@@ -133,6 +133,10 @@ def analyse_run(sc, rm: RM, r, want=None, want_lazy_probe=True):
             viols.setdefault("C05", []).append(
                 {"kind": "deadlock", "features": feats,
                  "detail": {"outcome": oc, "waiting": waiting_summary(r)}})
+        elif oc[0] == "hang":
+            viols.setdefault("C05", []).append(
+                {"kind": "hang", "features": {"where": oc[1]},
+                 "detail": {"outcome": oc, "tb": (r.tb or "")[-1200:]}})
         elif oc[0] == "livelock":
             viols.setdefault("C05", []).append(
                 {"kind": "livelock", "features": {"phase": oc[1]}, "detail": {"outcome": oc}})
